@@ -33,35 +33,46 @@ Theorem C04_single_transfer :
 Proof. exact single_transfer_lemma. Qed.
 Print Assumptions C04_single_transfer.
 
-(* PreCopy, PostCopy and OnCopySkipped are each invoked at most once per node *)
+(* every callback is invoked at most once per node *)
 Theorem C04_callbacks_at_most_once :
   forall (g : graph) (c : cfg) (d0 : list node) (tr : list event) (st : state) (n : node),
     accepts g c d0 tr = Some st ->
-    cnt (is_cb CPre n) tr <= 1 /\ cnt (is_cb CPost n) tr <= 1 /\ cnt (is_cb CSkip n) tr <= 1.
+    cnt (is_cb CPre n) tr <= 1 /\ cnt (is_cb CPost n) tr <= 1 /\ cnt (is_cb CSkip n) tr <= 1 /\
+    cnt (is_cb CMounted n) tr <= 1 /\ cnt (is_cb CMountFrom n) tr <= 1.
 Proof. exact callbacks_once_lemma. Qed.
 Print Assumptions C04_callbacks_at_most_once.
 
-(* every node transferred by a successful copy: exactly one PreCopy, exactly one
-   PostCopy, no OnCopySkipped ... *)
+(* every node uploaded by a successful copy (is_xfer: a successful Push/PushReference,
+   or a Mount that fell back to uploading): exactly one PreCopy, exactly one PostCopy,
+   no OnCopySkipped ... *)
 Theorem C04_transferred_exactly_once :
   forall (g : graph) (c : cfg) (d0 : list node) (tr : list event) (st : state)
-         (n : node) (ref : bool),
+         (n : node) (e : event),
     accepts g c d0 tr = Some st -> returned st = Some true ->
-    In (PuE n ref POk) tr ->
+    In e tr -> is_xfer n e ->
     cnt (is_cb CPre n) tr = 1 /\ cnt (is_cb CPost n) tr = 1 /\ cnt (is_cb CSkip n) tr = 0.
 Proof. exact transferred_exactly_once. Qed.
 Print Assumptions C04_transferred_exactly_once.
 
 (* ... in that order: PreCopy before the push completes, PostCopy after it *)
 Theorem C04_push_between_callbacks :
-  forall (g : graph) (c : cfg) (d0 : list node) (tr1 : list event) (n : node) (ref : bool)
+  forall (g : graph) (c : cfg) (d0 : list node) (tr1 : list event) (n : node) (e : event)
          (tr2 : list event) (st : state),
-    accepts g c d0 (tr1 ++ PuE n ref POk :: tr2) = Some st ->
+    is_xfer n e ->
+    accepts g c d0 (tr1 ++ e :: tr2) = Some st ->
     In (Cb CPre n) tr1 /\ ~ In (Cb CPost n) tr1.
 Proof. exact push_between_callbacks. Qed.
 Print Assumptions C04_push_between_callbacks.
 
-(* a node's PostCopy comes after the terminal notification (PostCopy or OnCopySkipped)
+(* a mounted node of a successful copy triggers exactly one OnMounted *)
+Theorem C04_mounted_exactly_once :
+  forall (g : graph) (c : cfg) (d0 : list node) (tr : list event) (st : state) (n : node),
+    accepts g c d0 tr = Some st -> returned st = Some true ->
+    In (MtE n MMounted) tr -> cnt (is_cb CMounted n) tr = 1.
+Proof. exact mounted_exactly_once. Qed.
+Print Assumptions C04_mounted_exactly_once.
+
+(* a node's PostCopy comes after the terminal notification (PostCopy, OnCopySkipped or OnMounted)
    of each of its non-foreign successors; the only node that completes without a
    notification is the already-present root of a ReferencePusher copy (prepareCopy
    re-pushes it with the reference instead of calling OnCopySkipped), which is no
